@@ -53,12 +53,24 @@ BASE_FLAGS = ["--show-traceback", "--no-color-output"]
 
 
 # ===================================================================================== helpers
+_MTIME_LOCK = __import__("threading").Lock()
+_MTIME_NEXT = [1_600_000_000]
+
+
 def write_files(d: str, files: dict[str, str]) -> None:
+    """Every file written gets an mtime of its own (whole seconds, strictly increasing over the run).  Jobs share
+    per-slot cache directories and all call their module `main`: two programs of the same size written within one
+    second would otherwise look unchanged to validate_meta's (mtime, size) fast path (finding F7) and the second
+    job would be answered from the first one's cache entry without being checked."""
     for name, text in files.items():
         p = os.path.join(d, name)
         os.makedirs(os.path.dirname(p) or d, exist_ok=True)
         with open(p, "w", encoding="utf8", errors="surrogateescape", newline="") as f:
             f.write(text)
+        with _MTIME_LOCK:
+            _MTIME_NEXT[0] += 2
+            t = _MTIME_NEXT[0]
+        os.utime(p, (t, t))
 
 
 def innermost_from_traceback(text: str) -> tuple[str | None, str | None, str | None, str | None]:
